@@ -377,17 +377,22 @@ class _DemList(NativeModel):
 def _node_delitem_case(kind):
     def build(cx):
         N, other, ref = cx.name("node"), cx.name("other"), cx.name("referenced")      # `referenced`: pattern / curve the node uses
-        for n in (N, other, ref):
+        ref2 = cx.name("referenced2")                                                      # a second pattern (three-entry case)
+        for n in (N, other, ref, ref2):
             _nonempty(cx, n)
-        cx.assume(z3.Distinct(cx.t(N), cx.t(other), cx.t(ref)))
+        cx.assume(z3.Distinct(cx.t(N), cx.t(other), cx.t(ref), cx.t(ref2)))
         w = World(cx)
         if kind.startswith("junction"):
             from wntr.network.elements import Pattern
             pat = SymObj(Pattern, dict(name=ref, _multipliers=[1.0, 2.0]))
             # several demand entries may share one pattern (the usage record is a set: the second release finds nothing to release)
-            pats = {"junction": [pat], "junction_two_demands_one_pattern": [pat, pat], "junction_demand_without_pattern_first": [None, pat]}[kind]
+            pat2 = SymObj(Pattern, dict(name=ref2, _multipliers=[1.0, 3.0]))
+            pats = {"junction": [pat], "junction_two_demands_one_pattern": [pat, pat], "junction_demand_without_pattern_first": [None, pat],
+                    "junction_three_demands_the_first_two_on_one_pattern": [pat, pat, pat2]}[kind]
             node = SymObj(Junction, dict(_name=N, _demand_timeseries_list=_DemList(pats), _pattern_reg=w.pat.obj))
             w.pat.assume_member(ref, (N, "Junction"))
+            if pat2 in pats:
+                w.pat.assume_member(ref2, (N, "Junction"))
             user = (w.pat, (N, "Junction"))
         elif kind == "reservoir":
             node = SymObj(Reservoir, dict(_name=N, _head_timeseries=SymObj(TimeSeries, dict(_pattern=ref, _pattern_reg=w.pat.obj, _base=1.0, _category=None))))
@@ -403,7 +408,7 @@ def _node_delitem_case(kind):
         for t, (pred, sm) in w.node.typed.items():
             cx.assume(pred(cx.t(N)) == z3.BoolVal(t == sets[kind.split("_")[0]]))
         for r in w.regs:
-            r.assume_inv(N, other, ref)
+            r.assume_inv(N, other, ref, ref2)
         used = z3.And(w.node.U(cx.t(N)), w.node.CARD(cx.t(N)) > 0)
         cx.allow_raise(RuntimeError, used)
         cx.target(MODEL.NodeRegistry.__delitem__, w.node.obj, N)
@@ -416,6 +421,8 @@ def _node_delitem_case(kind):
             for t in NODE_SUBSETS:
                 posts.append(("node_gone_from_typed_subset%s" % t, z3.Not(w.node.typed_has(t, N))))
             posts.append(("pattern_or_curve_no_longer_records_the_node", z3.Not(user[0].member_after(ref, user[1]))))
+            if kind == "junction_three_demands_the_first_two_on_one_pattern":
+                posts.append(("every_pattern_of_the_demand_list_no_longer_records_the_node", z3.Not(user[0].member_after(ref2, user[1]))))
             posts.append(("other_keys_untouched_in_every_registry", w.unchanged_at(other)))
             return posts
         cx.ensure(post)
@@ -450,7 +457,7 @@ def _setitem_case(regname, cls, subsets_true):
 
 
 CONTRACTS += [
-    Contract("wntr.network.model:NodeRegistry.__delitem__", P, [_node_delitem_case(k) for k in ("junction", "junction_two_demands_one_pattern", "junction_demand_without_pattern_first", "reservoir", "tank")]),
+    Contract("wntr.network.model:NodeRegistry.__delitem__", P, [_node_delitem_case(k) for k in ("junction", "junction_two_demands_one_pattern", "junction_demand_without_pattern_first", "junction_three_demands_the_first_two_on_one_pattern", "reservoir", "tank")]),
     Contract("wntr.network.model:NodeRegistry.__setitem__", P, [_setitem_case("node", Junction, {"_junctions"}), _setitem_case("node", Tank, {"_tanks"}),
                                                                  _setitem_case("node", Reservoir, {"_reservoirs"})]),
     Contract("wntr.network.model:LinkRegistry.__setitem__", P, [_setitem_case("link", c, LINK_SETS_OF[c]) for c in (Pipe, HeadPump, PowerPump, PRValve, PSValve, PBValve, FCValve, TCValve, GPValve)]),
